@@ -34,6 +34,9 @@ def seq(f):
             continue
         if e.cls == "CallExpr" and e.callee and not e.callee.startswith("__"):
             out.append((e.line, e.i, (e.callee,) + tuple(sh(norm(a)) for a in e.args)))
+        elif ir.step(e):
+            st = ir.step(e)
+            out.append((e.line, e.i, ("store" + st[0], sh(st[1]), sh(st[2]))))
         elif e.is_assign:
             out.append((e.line, e.i, ("store" + (e.op if e.op != "=" else ""), sh(norm(e.kid(0))), sh(norm(e.kid(1))))))
     out.sort(key=lambda x: (x[0], x[1]))
